@@ -90,7 +90,11 @@ def build(features=()):
     rc = open(os.path.join(SHIMS, 'rand_core_rel.rs')).read()
     u.raw(rc.replace('//@IMPLS@', rand_core_impls_rel_text(u)))
     u.raw(open(os.path.join(HERE, 'spec.rs')).read())
-    u.raw(open(os.path.join(HERE, 'lemmas.rs')).read() if os.path.exists(os.path.join(HERE, 'lemmas.rs')) else '')
+    import importlib.util
+    sp = importlib.util.spec_from_file_location('stir_inverse', os.path.join(HERE, '..', '..', 'tools', 'stir_inverse.py'))
+    si = importlib.util.module_from_spec(sp)
+    sp.loader.exec_module(si)
+    u.lemma_file(open(os.path.join(HERE, 'lemmas.rs')).read().replace('//@NINV@', si.rust(si.compute())), 'C15', prefix='jitter.')
     u.raw('pub mod jitter {\n' + PRE)
     u.raw('// the error enum (discriminant values are irrelevant to every claimed property)\n'
           'pub mod error { pub enum TimerError { NoTimer, CoarseTimer, NotMonotonic, TinyVariations, TooManyStuck, __Nonexhaustive } }\npub use self::error::TimerError;')
